@@ -11,13 +11,41 @@ def stateW : Word := BitVec.ofNat 64 stateBase
 def ctxW : Word := BitVec.ofNat 64 ctxBase
 def stackW : Word := BitVec.ofNat 64 stackTop
 
+/-- State bytes that policy reads and no policy program ever writes: the three addresses
+(8..71), the ports and the protocol (96..104). -/
+def Stable (j : Nat) : Prop := (8 ≤ j ∧ j < 72) ∨ (96 ≤ j ∧ j < 105)
+
+/-- `st'` is the state `st` after a policy program may have written to it: same size, same
+packet fields, same host bits (2, 3) of the flags.  (`pol_rc`, `rules_hit`, `rule_ids` and the
+other flag bits may differ.) -/
+structure StSim (st st' : List Byte) : Prop where
+  len : st'.length = 512
+  same : ∀ j, Stable j → st'[j]? = st[j]?
+  flags : (BitVec.ofNat 64 (fieldN st' 368 8) &&& 12#64) = (BitVec.ofNat 64 (fieldN st 368 8) &&& 12#64)
+
+theorem StSim.refl (st : List Byte) (h : st.length = 512) : StSim st st := ⟨h, fun _ _ => rfl, rfl⟩
+
+theorem StSim.bytes_eq {st st' : List Byte} (h : StSim st st') (hlen : st.length = 512) (k n : Nat)
+    (hk : k + n ≤ 512) (hs : ∀ j, k ≤ j → j < k + n → Stable j) :
+    getBytes st' k n = getBytes st k n := by
+  unfold getBytes
+  rw [if_pos (by rw [h.len]; exact hk), if_pos (by rw [hlen]; exact hk)]
+  congr 1
+  apply List.ext_getElem?
+  intro i
+  simp only [List.getElem?_take, List.getElem?_drop]
+  by_cases hi : i < n
+  · simp only [hi, if_true]
+    exact h.same (k + i) (hs (k + i) (by omega) (by omega))
+  · simp only [hi, if_false]
+
 /-- The builder's invariant between instructions of the policy part. -/
 structure Inv (st : List Byte) (m : Mach) : Prop where
   r6 : m.reg 6 = some ctxW
   r9 : m.reg 9 = some stateW
   r10 : m.reg 10 = some stackW
   regsLen : m.regs.length = 11
-  stEq : m.st = st
+  sim : StSim st m.st
   stLen : st.length = 512
 
 theorem reg_setReg_ne {m : Mach} {r r' : Nat} {v : Word} (h : r ≠ r') :
@@ -39,7 +67,7 @@ theorem Inv.setReg {st : List Byte} {m : Mach} (h : Inv st m) (r : Nat) (v : Wor
   r9 := by rw [reg_setReg_ne h9]; exact h.r9
   r10 := by rw [reg_setReg_ne h10]; exact h.r10
   regsLen := by simp [Mach.setReg, h.regsLen]
-  stEq := h.stEq
+  sim := h.sim
   stLen := h.stLen
 
 set_option maxRecDepth 8000 in
@@ -62,15 +90,31 @@ theorem load_state {env : Env} {m : Mach} (k n : Nat) (h : k + n ≤ 512) :
   unfold Mach.load
   rw [region_state k n h]
 
-/-- LDX of 1/2/4/8 bytes from the state through R9. -/
+/-- LDX of 1/2/4/8 bytes from the state through R9, whatever the bytes are. -/
+theorem step_ldx_state_raw {env : Env} {m : Mach} (h9 : m.reg 9 = some stateW) (hlen : m.st.length = 512)
+    (op d : Nat) (k n : Nat) (imm : Int) (nxt : Option Insn)
+    (hop : (op = opLoadReg8 ∧ n = 1) ∨ (op = opLoadReg16 ∧ n = 2) ∨ (op = opLoadReg32 ∧ n = 4) ∨
+      (op = opLoadReg64 ∧ n = 8))
+    (hd : d < 10) (hk : k + n ≤ 512) :
+    step env ⟨op, d, 9, (k : Int), imm⟩ nxt m = .next (m.setReg d (BitVec.ofNat 64 (fieldN m.st k n))) := by
+  have hl := load_state (env := env) (m := m) k n hk
+  have hg : getBytes m.st k n = some ((m.st.drop k).take n) := by
+    unfold getBytes; rw [if_pos (by omega)]
+  rw [hg] at hl
+  have hd' : ¬ d ≥ 10 := by omega
+  rcases hop with ⟨rfl, rfl⟩ | ⟨rfl, rfl⟩ | ⟨rfl, rfl⟩ | ⟨rfl, rfl⟩ <;>
+    simp [step, opLoadReg8, opLoadReg16, opLoadReg32, opLoadReg64, opLoadImm64, hd', h9, hl, fieldN]
+
+/-- LDX of a packet field (a `Stable` byte range): the value is that of the original state. -/
 theorem step_ldx_state {env : Env} {st : List Byte} {m : Mach} (hI : Inv st m)
     (op d : Nat) (k n : Nat) (imm : Int) (nxt : Option Insn) (bs : List Byte)
     (hop : (op = opLoadReg8 ∧ n = 1) ∨ (op = opLoadReg16 ∧ n = 2) ∨ (op = opLoadReg32 ∧ n = 4) ∨
       (op = opLoadReg64 ∧ n = 8))
-    (hd : d < 10) (hk : k + n ≤ 512) (hb : getBytes st k n = some bs) :
+    (hd : d < 10) (hk : k + n ≤ 512) (hb : getBytes st k n = some bs)
+    (hstab : ∀ j, k ≤ j → j < k + n → Stable j) :
     step env ⟨op, d, 9, (k : Int), imm⟩ nxt m = .next (m.setReg d (BitVec.ofNat 64 (leNat bs))) := by
   have hl := load_state (env := env) (m := m) k n hk
-  rw [hI.stEq, hb] at hl
+  rw [hI.sim.bytes_eq hI.stLen k n hk hstab, hb] at hl
   have hd' : ¬ d ≥ 10 := by omega
   rcases hop with ⟨rfl, rfl⟩ | ⟨rfl, rfl⟩ | ⟨rfl, rfl⟩ | ⟨rfl, rfl⟩ <;>
     simp [step, opLoadReg8, opLoadReg16, opLoadReg32, opLoadReg64, opLoadImm64, hd', hI.r9, hl]
